@@ -43,6 +43,10 @@ def gen(rng, quick):
             if mode.startswith("ushape"):    # default parameters on the adversarial input
                 sp = "R2"; par = {"partial": "0 0 0.33 0.005", "rope": "0.1 0.1", "perturb": "0.05 0 0 0.005", "bettergoal": "0.1 10 0.33 0.005"}[r]
             jobs.append(("SIMP %s %s %d 0.01 %s %s %s" % (sp, env, seed, mode, r, par)).strip())
+    # paths of total length 0 (start = goal, every state the same): densification must still deliver the requested count
+    for k in range(6 if quick else 60):
+        jobs.append("SIMP %s empty %d 0.01 point interpolate %d" % (rng.choice(["R2", "SE2", "R3"]), rng.randint(1, 10 ** 6), rng.choice([2, 6, 17, 250, -1, -3])))
+        if k % 3 == 0: jobs.append("SIMP R2 empty %d 0.01 point subdivide" % rng.randint(1, 10 ** 6))
     return jobs
 
 
@@ -116,13 +120,14 @@ def main():
             cnt = L.get("COUNTS", [])
             if routine == "subdivide":
                 if oids[0::2] != iids: pred(j, "subdivide does not keep the original vertices (at the even positions)")
+            elif j.split()[5] == "point": pass       # every state equal: "the original vertices in order" holds trivially (states are identified by value)
             elif not cnt or cnt[-1] != "1": pred(j, "densification does not keep the original vertices in order")
             if routine == "subdivide" and n_out != 2 * n_in - 1: pred(j, "subdivide produced %d states from %d" % (n_out, n_in))
             if routine == "interpolate":
                 req = int(L["REQUEST"][0]) if "REQUEST" in L else 10
                 exp = req if (req >= n_in and n_in >= 2) else n_in
                 if n_out != exp: pred(j, "interpolate(%d) on %d states produced %d states, expected %d" % (req, n_in, n_out, exp))
-                interp_feed.append("INTERP %d %s" % (req, " ".join(L.get("SEGLENS", [])))); interp_jobs.append((j, cnt[:-2], n_out))
+                if j.split()[5] != "point": interp_feed.append("INTERP %d %s" % (req, " ".join(L.get("SEGLENS", [])))); interp_jobs.append((j, cnt[:-2], n_out))
         if routine == "hybridize":
             br = int(L["RESULT"][L["RESULT"].index("best_recorded") + 1]) if "best_recorded" in L["RESULT"] else None
             if br is not None and len_out > br + LEN_EPS: pred(j, "hybridized path (%.9f) is worse than the best recorded input path (%.9f)" % (len_out / 1e9, br / 1e9))
